@@ -322,7 +322,12 @@ def op_index(spec, a, b):
         i = a % (E - 1)
         O[i], O[i + 1] = O[i + 1], O[i]
     elif k == 5 and E >= 2:
-        I[a % E] = I[(a + 1) % E]  # duplicated entry
+        # duplicated entry (insertion or removal order; the last positions matter for removal)
+        tgt = I if (a // 2) % 2 == 0 else O
+        if (a // 4) % 2 == 0:
+            tgt[a % E] = tgt[(a + 1) % E]
+        else:
+            tgt[E - 1] = tgt[E - 2]
     elif k == 6:
         (I if a % 2 else O)[a % E] = E  # out of range
     elif k == 7:
